@@ -293,7 +293,15 @@ def rule_tables(prog, res, oracle_path):
             if ok:
                 inner = v.args[1][0]    # observer calls carry the receiver's value
                 ok = inner.op == "call" and inner.args[0] == MM + g + "::to_id" and inner.args[1][0].op == "arg"
-            res.ob("Y-tab", "%s | is_valid(s) == to_id(s).is_some()" % g, ok, show(v, fa.names), iv.loc)
+            detail = show(v, fa.names)
+            if not ok:
+                # the same question asked of the body itself: evaluate is_valid for a descriptor to_id recognises and for one it does not
+                try:
+                    by_ref = iv.locals[1].get("k") == "ref"
+                    ok, detail = ordsem.check_is_valid(prog, MM + g + "::SigId::is_valid", MM + g + "::to_id", MM + g + "::SigId", by_ref)
+                except (ordsem.Undecided, ordsem.Panic) as e:
+                    detail += " ; Y-sem undecided: %s" % e
+            res.ob("Y-tab", "%s | is_valid(s) == to_id(s).is_some()" % g, ok, detail, iv.loc)
         # accessors new/band/attribute
         for name, want in (("new", None), ("band", 0), ("attribute", 1)):
             h = prog.fn(MM + g + "::SigId::" + name)
